@@ -12,8 +12,10 @@ wrapper that counts the dump calls and makes the k-th call fail as the plan says
 The real `Local.dump` code is executed in every mode but 'before', so its own order (makedirs, open, write)
 is what is observed.  After every dump call (failed or not) the state of `root` is recorded in `.snapshots`.
 
-`snapshot(root)` describes the target path: (0,) absent | (1, bytes) file | (2, [((kind, idx), bytes), ...])
-directory with its entries in byte order of their names; names: part-NNNNN -> (0, N), _SUCCESS -> (1, 0),
+`snapshot(root, ext)` describes the target path (whose name ends with the codec extension `ext`, '' for none):
+(0,) absent | (1, bytes) file | (2, [((kind, idx), bytes), ...]) directory with its entries in byte order of their
+names; contents are DECODED by the codec their file name selects (gzip output carries a timestamp; undecodable and
+empty contents stay raw); names: part-NNNNN<suffix> -> (0, N), exactly _SUCCESS -> (1, 0),
 old-K -> (2, K); any other name (or a sub-directory) -> (3, 0): not something a save may create (the model never
 produces it, the oracle reports it).
 """
@@ -21,6 +23,7 @@ import io
 import os
 import re
 
+from pysparkling.fileio import codec as _codec
 from pysparkling.fileio.fs import local as _local
 
 
@@ -54,33 +57,56 @@ _PART = re.compile(r'^part-(\d{5,})$')
 _OLD = re.compile(r'^old-(\d)$')
 
 
-def name_code(fname):
-    m = _PART.match(fname)
-    if m:
-        return (0, int(m.group(1)))
+def codec_suffix(ext):
+    """What the savers append to part names for a target with codec extension `ext`: its tail from the last dot."""
+    return ext[ext.rfind('.'):] if ext else ''
+
+
+def name_code(fname, sfx=''):
+    """part-NNNNN<sfx> -> (0, N); exactly _SUCCESS -> (1, 0); old-K -> (2, K); anything else -> (3, 0)."""
     if fname == '_SUCCESS':
         return (1, 0)
+    stem = fname[:len(fname) - len(sfx)] if sfx and fname.endswith(sfx) else (fname if not sfx else None)
+    if stem is not None:
+        m = _PART.match(stem)
+        if m:
+            return (0, int(m.group(1)))
     m = _OLD.match(fname)
     if m:
         return (2, int(m.group(1)))
-    return (3, 0)    # not a name a save may create (e.g. a temporary file left behind); judged by the oracle
+    return (3, 0)    # not a name a save may create (a temporary file left behind, '_SUCCESS.gz', ...); judged by the oracle
 
 
-def name_of(code):
+def name_of(code, sfx=''):
     kind, idx = code
     if kind == 0:
-        return f'part-{idx:05d}'
+        return f'part-{idx:05d}{sfx}'
     if kind == 1:
         return '_SUCCESS'
     return f'old-{idx}'
 
 
-def snapshot(root):
+def decoded(path, raw):
+    """File content as the reader would see it: decompressed by the codec the file name selects; an empty file
+    and content the codec cannot decode (torn writes, foreign files) are returned as they are."""
+    if not raw:
+        return raw
+    cls = _codec.get_codec(path)
+    if cls is _codec.Codec or cls is _codec.NoCodec:
+        return raw
+    try:
+        return cls().decompress(io.BytesIO(raw)).read()
+    except Exception:  # pylint: disable=broad-except
+        return raw
+
+
+def snapshot(root, ext=''):
+    sfx = codec_suffix(ext)
     if not os.path.lexists(root):
         return (0,)
     if os.path.isfile(root):
         with open(root, 'rb') as f:
-            return (1, f.read())
+            return (1, decoded(root, f.read()))
     entries = []
     for fname in sorted(os.listdir(root), key=lambda s: s.encode()):
         p = os.path.join(root, fname)
@@ -88,19 +114,20 @@ def snapshot(root):
             entries.append(((3, 0), b''))
             continue
         with open(p, 'rb') as f:
-            entries.append((name_code(fname), f.read()))
+            entries.append((name_code(fname, sfx), decoded(p, f.read())))
     return (2, entries)
 
 
-def materialise(root, pre):
-    """Create the pre-state `pre` (same encoding as snapshot) at `root`."""
+def materialise(root, pre, ext=''):
+    """Create the pre-state `pre` (same encoding as snapshot; contents written as they are) at `root`."""
+    sfx = codec_suffix(ext)
     if pre[0] == 1:
         with open(root, 'wb') as f:
             f.write(pre[1])
     elif pre[0] == 2:
         os.makedirs(root)
         for code, content in pre[1]:
-            with open(os.path.join(root, name_of(tuple(code))), 'wb') as f:
+            with open(os.path.join(root, name_of(tuple(code), sfx)), 'wb') as f:
                 f.write(content)
 
 
@@ -118,8 +145,9 @@ class _FailingOpenIO:
 
 
 class FaultFS:
-    def __init__(self, root, wfaults):
+    def __init__(self, root, wfaults, ext=''):
         self.root = root
+        self.ext = ext
         self.wfaults = {int(w[0]): (int(w[1]), int(w[2]), int(w[3]) if len(w) > 3 else INJECTED) for w in wfaults}
         self.calls = 0
         self.snapshots = []
@@ -162,7 +190,7 @@ class FaultFS:
                 raise _exc(cls, InjectedWriteFault, f'dump call {k} after {j} bytes')
             return self._orig(fs_self, torn())
         finally:
-            self.snapshots.append(snapshot(self.root))
+            self.snapshots.append(snapshot(self.root, self.ext))
 
 
 class FaultyPartitions:
